@@ -174,8 +174,9 @@ func runC17Doc(c *fw.Ctx, tag string, r *rand.Rand, n int) {
 		for i := 0; i < nr; i++ {
 			run := result.TracerouteRun{Destination: result.TracerouteDestination{IPAddress: boundaryIP(rr, rr.Intn(100))}}
 			nh := 1 + rr.Intn(10)
+			first := []int{1, 1, 2, 3, 9, 200}[rr.Intn(6)] // runs of library callers may start above TTL 1
 			for h := 0; h < nh; h++ {
-				hop := &result.TracerouteHop{TTL: h + 1}
+				hop := &result.TracerouteHop{TTL: first + h}
 				if rr.Intn(5) != 0 {
 					hop.IPAddress = boundaryIP(rr, n+i*7+h)
 					hop.RTT = 1 + rr.Float64()*50
@@ -237,7 +238,11 @@ func runC17Wire(c *fw.Ctx, id string, v refmatch.Variant, rdns, viaHTTP bool, n 
 	var docs [2]*result.Results
 	for pass, skip := range []bool{false, true} {
 		resetProcessState()
-		params := traceroute.TracerouteParams{Hostname: target.String(), Port: 33434, Protocol: proto, MinTTL: 1, MaxTTL: nhops + 1, Delay: 10,
+		minTTL := 1
+		if !viaHTTP && n%3 == 2 {
+			minTTL = 3 // a library caller's first TTL: redacted entries keep TTL and position
+		}
+		params := traceroute.TracerouteParams{Hostname: target.String(), Port: 33434, Protocol: proto, MinTTL: minTTL, MaxTTL: nhops + 1, Delay: 10,
 			Timeout: 400 * time.Millisecond, TCPMethod: traceroute.TCPConfigSYN, TracerouteQueries: 2, E2eQueries: 1, ReverseDns: rdns, SkipPrivateHops: skip, WantV6: v.V6}
 		env, err := newReqEnv(c, params, target, 33434, false)
 		if err != nil {
